@@ -25,3 +25,26 @@ Theorem classes_respect_automorphisms :
     forall x x', In x (atoms r) -> In x' (atoms r) -> lbl x' = f (lbl x) -> part x' = part x.
 Proof. exact (@SameMol.classes_respect_automorphisms). Qed.
 Print Assumptions classes_respect_automorphisms.
+
+(* Atoms in one class share element, isotope mass and radical state (the invariant code) ... *)
+Require Equitable.
+Theorem classes_same_invariant :
+  forall (P B : Type) (m r : mol P B), classes m = Some r ->
+    forall x y, In x (atoms r) -> In y (atoms r) -> part x = part y -> inv_code x = inv_code y.
+Proof. exact Equitable.classes_same_invariant. Qed.
+Print Assumptions classes_same_invariant.
+
+(* ... and see the same multiset of classes among their neighbours: the partition is equitable,
+   i.e. stable under one more refinement round. *)
+Theorem classes_equitable :
+  forall (P B : Type) (m r : mol P B), classes m = Some r ->
+    forall x y, In x (atoms r) -> In y (atoms r) -> part x = part y ->
+      isort Ngeb (nbr_vals (@part P) r (lbl x)) = isort Ngeb (nbr_vals (@part P) r (lbl y)).
+Proof. exact Equitable.classes_equitable_nowf. Qed.
+Print Assumptions classes_equitable.
+
+(* The refinement never fails or runs out of fuel on a non-empty molecule. *)
+Theorem classes_total :
+  forall (P B : Type) (m : mol P B), atoms m <> nil -> exists r, classes m = Some r.
+Proof. exact Equitable.refine_fuel_suffices. Qed.
+Print Assumptions classes_total.
